@@ -512,7 +512,7 @@ def known_svd_rank_deficient(ctx):
     u, s, vh = svd(xt.LinearOperator.m(A))
     ctx.count(("svd-rank-deficient",))
     d = (u.T @ u - torch.eye(4, dtype=DT)).abs().max().item()
-    if d > 1e-6:
+    if not d <= 1e-6:
         ctx.fail("oracle", "svd:rank-deficient:u-not-orthonormal", {"A": "rank-2 5x4 matrix, full k", "seed": 7},
                  {"u_orthonormal": d, "s": s.tolist()}, "orthonormal columns of u")
 
